@@ -39,16 +39,18 @@ VOCAB = [
     "s = \"a & ! b\"", "! plain comment", "s = 'abc&  ", "&def' ! c", "&#9' ! c", "#else ! c", "#endif ! c",
 ]
 
-LITS = ["'a ! b'", "\"x & y\"", "'it''s'", "\"say \"\"hi\"\"\"", "'a // b'", "'!'", "'&'", "\"'\"", "'\"'", "'plain'", "\"#if 0\"", "'! &'",
+LITS = ["'a\x0cb'", "'a ! b'", "\"x & y\"", "'it''s'", "\"say \"\"hi\"\"\"", "'a // b'", "'!'", "'&'", "\"'\"", "'\"'", "'plain'", "\"#if 0\"", "'! &'",
         "'a&b'", "\"!$omp\"", "'stop &  ! now'", "\"a & ! b\"", "'x &'"]
-COMMENTS = ["! c", "! don't", "! \"x", "! a & b", "!! double", "!c$", "! #ifdef A", "!$omp parallel", "!$acc kernels", "!dir$ ivdep", "!$ y = 1"]
+COMMENTS = ["! page\x0cbreak", "! c", "! don't", "! \"x", "! a & b", "!! double", "!c$", "! #ifdef A", "!$omp parallel", "!$acc kernels", "!dir$ ivdep", "!$ y = 1"]
 
 
 # headers included (two levels deep) from the Fortran file: free-form Fortran text, whatever their extension
 INC_FILES = {
-    "inc.h": "  call m_inc()\n#include \"inc2.h\"\n! trailing comment: isn't code\n",
+    "inc.h": "  call m_inc()\n#include \"inc2.h\"\n! trailing comment: isn't code\n#ifdef FROM_FH\n  call m_fh_seen()\n#else\n  call m_fh_unseen()\n#endif\n",
+    # a header whose extension is not one of the source-file extensions (the .fh / .fi convention): still included
+    "defs.fh": "! definitions, don't count me\n#define FROM_FH 1\n  call m_fh()\n",
     "inc2.h": "! second level: an ordinary comment, isn't counted\n  call m_inc2()\n      ! indented comment\n#define FROM_INC2\n"
-              "! c\n  s = 'a' // 'b' ! concatenation, not a C++ comment\n\n  x = 1 &\n    ! comment inside\n    + 2\n",
+              "! c\n  s = 'a' // 'b' ! concatenation, not a C++ comment\n\n  x = 1 &\n    ! comment inside\n    + 2\n#include \"defs.fh\"\n",
 }
 
 
@@ -66,7 +68,8 @@ def required_cells(tier):
             "doubled-quote", "special-char-in-literal", "sentinel", "directive", "comment-after-&", "selection-compared",
             "define-sets>=4", "class:E", "class:R", "include", "all-code-lines-compared", "directive-inside-continuation",
             "comment-in-literal-continuation", "blank-in-literal-continuation", "nested-include",
-            "hash-first-in-literal-continuation", "comment-after-conditional-directive"]
+            "hash-first-in-literal-continuation", "comment-after-conditional-directive", "selection-inside-included-header",
+            "include-of-non-source-extension", "form-feed-in-comment-or-literal"]
 
 
 def gfortran(args, cwd):
@@ -190,6 +193,8 @@ def check_text(ctx, text, work, cls, defsets):
     cells = set(n for n in notes) | {"class:" + cls}
     if re.search(r"&[ \t]*(![^\n]*)?\n#", text):
         cells.add("directive-inside-continuation")
+    if "\x0c" in text:
+        cells.add("form-feed-in-comment-or-literal")
     if re.search(r"^[ \t]*&[ \t]*#", text, re.M):
         cells.add("hash-first-in-literal-continuation")
     if re.search(r"^#(else|endif) !", text, re.M):
@@ -239,16 +244,19 @@ def check_text(ctx, text, work, cls, defsets):
             acc.hook("H-gfortran")
             if rc2 == 0 and not err2.strip():
                 kept = set()
+                kept_h = {name: set() for name in INC_FILES}
                 cur = None
+                cur_file = None
                 base = os.path.basename(path)
                 for ln_text in out2.split("\n"):
                     mm = re.match(r'^# (\d+) "([^"]*)"', ln_text)
                     if mm:
-                        cur = int(mm.group(1)) if os.path.basename(mm.group(2)) == base else None
+                        cur_file = os.path.basename(mm.group(2))
+                        cur = int(mm.group(1)) if (cur_file == base or cur_file in kept_h) else None
                         continue
                     if cur is not None:
                         if ln_text.strip():
-                            kept.add(cur)
+                            (kept if cur_file == base else kept_h[cur_file]).add(cur)
                         cur += 1
                 code_lines = [ln for ln in counted if ln not in directive]
                 exp_used = {ln for ln in code_lines if ln in kept}
@@ -276,6 +284,17 @@ def check_text(ctx, text, work, cls, defsets):
                         cells.add("nested-include")
                         if hseen != hcounted:
                             problems.append({"kind": "counted-set-of-included-header", "header": name, "expected": hcounted, "observed": hseen})
+                        elif rc2 == 0 and not err2.strip():
+                            # selection inside the header: its code lines are used iff gfortran keeps text on them
+                            hcode = [ln for ln in hcounted if ln not in hdir]
+                            hused = cbi.used_lines(state, os.path.join(hdr, name), "p")
+                            want_h, got_h = {ln for ln in hcode if ln in kept_h[name]}, {ln for ln in hcode if ln in hused}
+                            cells.add("selection-inside-included-header")
+                            if name.endswith(".fh"):
+                                cells.add("include-of-non-source-extension")
+                            if want_h != got_h:
+                                problems.append({"kind": "line-selection-inside-included-header", "header": name, "defines": ds,
+                                                 "missing": sorted(want_h - got_h), "extra": sorted(got_h - want_h)})
                     if problems:
                         break
         if len(defsets) >= 4:
